@@ -309,7 +309,7 @@ def explore(
                 if err is not None:
                     V.append(
                         violation(
-                            "c12.not_loadable",
+                            "c12.stale_proposal" if err.startswith("STALE-PROPOSAL") else "c12.not_loadable",
                             f"after a crash at {seam} call {k} ({phase}) the file cannot be resumed from: {err}",
                             w12, k=k,
                         )
@@ -527,7 +527,7 @@ def explore(
                         break
                     err = _loadable(run_file, scn)
                     if err is not None:
-                        V.append(violation("c12.not_loadable", f"after a second crash (resumed via {route}, call {m}) the file cannot be resumed from: {err}", w12))
+                        V.append(violation("c12.stale_proposal" if err.startswith("STALE-PROPOSAL") else "c12.not_loadable", f"after a second crash (resumed via {route}, call {m}) the file cannot be resumed from: {err}", w12))
                         break
                     out["nontrivial_keys"].append([ck["mode"], ck.get("every"), "second_crash", route])
     # ---------------- double crash ----------------
@@ -594,6 +594,25 @@ def _loadable(path, scn, deep=False):
         A = Aspire.resume_from_file(path, log_likelihood=SimLikelihood(m), log_prior=SimPrior(m))
         if A.flow is None:
             return "flow not loaded"
+        if has_ck:
+            # "the proposal" the file must contain is the one the stored particles were weighted under (what a resumed run will
+            # evaluate them with), not merely some proposal
+            import pickle
+
+            import numpy as np
+
+            from .core import to_np
+
+            with AspireFile(path, "r") as f:
+                st = pickle.loads(f["checkpoint"]["state"][...].tobytes())
+            smp = st.get("samples")
+            if smp is not None and getattr(smp, "log_q", None) is not None and len(smp.x):
+                lq = np.asarray(to_np(smp.log_q), dtype=np.float64)
+                want = np.asarray(to_np(A.flow.log_prob(smp.x)), dtype=np.float64)
+                fin = np.isfinite(lq) & np.isfinite(want)
+                if lq.shape != want.shape or not np.allclose(lq[fin], want[fin], rtol=1e-3, atol=1e-3):
+                    return ("STALE-PROPOSAL: the proposal stored in the file is not the one the stored checkpoint's particles were weighted "
+                            f"under (max |log_q - file_flow.log_prob(x)| = {float(np.max(np.abs(lq[fin] - want[fin]))) if fin.any() and lq.shape == want.shape else None})")
     except Exception as e:  # noqa: BLE001
         return f"{type(e).__name__}: {e}"
     if deep and has_ck:
